@@ -19,6 +19,7 @@ EXPLANATION = (
     "C19.6 thread::sleep returns Ok only after nanosleep returned Ok, retries only on EINTR, and the remainder pointer is the request itself (the retry sleeps the remaining time); "
     "C19.7 monotonic readings come from CLOCK_MONOTONIC on both the vDSO and the syscall path (shared with C07.8), and every now() of Instant/MonotonicInstant reads that one clock (SystemTime: CLOCK_REALTIME); "
     "C19.8 every public operation of Instant and SystemTime (+ Duration, - Duration, - Self, duration_since, elapsed) reaches its own arithmetic helper with its operands in order (self first; now before self for elapsed) and wraps the result in its own type. "
+    "C19.5 also: TimeSpec's Ord/PartialOrd are the derived implementations. C19.1 also: a seconds value that does not fit its converted type ends the computation with None. "
     "NOT decided: the exactness identities ((t+d)-d = t, ...) as numerical facts, the kernel clock's monotonicity, the wall-clock lower bound of sleep.")
 ASSUMPTIONS = ["inputs are normalised (0 <= nanoseconds < 10^9), as the property states", "the monotonic clock is non-negative"]
 
